@@ -213,7 +213,7 @@ Clauses(e) ==
 \* which clauses a property enforces
 Enforced ==
   [ C01 |-> {"integrity", "resp", "sync.blobs", "sync.mans", "noerr"},
-    C02 |-> {"integrity", "resp", "sync.blobs", "sync.mans", "sync.tags", "noerr"},
+    C02 |-> {"integrity", "resp", "sync.blobs", "sync.mans", "sync.tags", "gc.safe", "noerr"},
     C03 |-> {"resp", "tagsresp", "sync.mans", "sync.tags", "taglist", "noerr"},
     C04 |-> {"resp", "sync.blobs", "sync.mans", "sync.tags", "taglist", "refs", "noerr"},
     C07 |-> {"resp", "refs", "sync.mans", "noerr"},
